@@ -54,9 +54,44 @@ def main():
                 if d == 0: break
             e += 1
         body = src[b:e + 1]
-        btoks = lex(body)
+        btoks0 = lex(body)
+        # the lexer yields one-character punctuation: merge the two-character operators the swaps speak about
+        class _T:
+            def __init__(self, kind, text): self.kind, self.text = kind, text
+        btoks = []
+        k_ = 0
+        while k_ < len(btoks0):
+            t0 = btoks0[k_]
+            if t0.kind == 'punct' and k_ + 1 < len(btoks0) and btoks0[k_ + 1].kind == 'punct' and t0.text + btoks0[k_ + 1].text in ('==', '!=', '<=', '>=', '&&', '||', '->', '=>', '+=', '-=', '<<', '>>', '::'):
+                btoks.append(_T('punct', t0.text + btoks0[k_ + 1].text)); k_ += 2
+            else:
+                btoks.append(_T(t0.kind, t0.text)); k_ += 1
+        # enum-variant swaps: `Enum::A` -> `Enum::B` for another variant of the same enum named in this function
+        variants = {}
+        for q in range(len(btoks) - 2):
+            if btoks[q].kind == 'ident' and btoks[q + 1].text == '::' and btoks[q + 2].kind == 'ident' and btoks[q].text[:1].isupper() and btoks[q + 2].text[:1].isupper():
+                variants.setdefault(btoks[q].text, [])
+                if btoks[q + 2].text not in variants[btoks[q].text]:
+                    variants[btoks[q].text].append(btoks[q + 2].text)
         pos = 0
-        for t in btoks:
+        for qi, t in enumerate(btoks):
+            if t.kind == 'ident' and qi >= 2 and btoks[qi - 1].text == '::' and btoks[qi - 2].text in variants and len(variants[btoks[qi - 2].text]) > 1 and t.text in variants[btoks[qi - 2].text]:
+                vs = variants[btoks[qi - 2].text]
+                muts.append((rel, b + pos, t.text, vs[(vs.index(t.text) + 1) % len(vs)], f['name'], src.count('\n', 0, b + pos) + 1))
+            # statement deletion: `self.<...> = <...>;` / `<place> += 1;` at any depth
+            if t.kind == 'ident' and t.text == 'self' and qi >= 1 and btoks[qi - 1].kind in ('ws',) and qi >= 2 and btoks[qi - 2].text in ('{', ';', '}'):
+                # find the end of the statement
+                q2 = qi; dd = 0; txt = ''
+                while q2 < len(btoks):
+                    tx = btoks[q2].text
+                    if tx in '([{' and len(tx) == 1: dd += 1
+                    elif tx in ')]}' and len(tx) == 1: dd -= 1
+                    txt += tx
+                    if dd == 0 and tx == ';': break
+                    if dd < 0: txt = ''; break
+                    q2 += 1
+                if txt and re.match(r'self(\.[a-z_0-9]+)+\s*(=|\+=|-=)[^=]', txt) and len(txt) < 200:
+                    muts.append((rel, b + pos, txt, '/*deleted*/', f['name'], src.count('\n', 0, b + pos) + 1))
             for a, bb in SWAPS:
                 if t.kind in ('punct', 'ident') and t.text == a:
                     # skip generics / arrows
